@@ -258,6 +258,115 @@ func runCase(c Case, raw json.RawMessage) M {
 	}
 }
 
+// kind "skipresume": blocks hold one element type each; skip flags turn whole blocks into empty ones.
+// Full scan with offsets after every Scan, then a second scanner at every distinct reported offset (C09).
+type SkipCase struct {
+	NB      int    `json:"nb"`
+	N       int    `json:"n"`
+	Skip    []bool `json:"skip"` // nodes, ways, relations
+	Variant int    `json:"variant"`
+	Header  bool   `json:"header"`
+}
+
+func typedBlock(b, typ int) (*pbfw.Block, int) {
+	full := block(b, b%2 == 0)
+	switch typ {
+	case 0:
+		full.Groups = full.Groups[0:1]
+		return full, 2
+	case 1:
+		w2 := full.Groups[1].Ways[0]
+		w2.ID = objID(b, 2)
+		full.Groups[1].Ways[0].ID = objID(b, 1)
+		full.Groups = []pbfw.Group{{Ways: []pbfw.Way{full.Groups[1].Ways[0], w2}}}
+		return full, 2
+	default:
+		full.Groups[2].Relations[0].ID = objID(b, 1)
+		full.Groups = full.Groups[2:3]
+		return full, 1
+	}
+}
+
+func runSkipResume(c SkipCase, raw json.RawMessage) M {
+	f := &pbfw.File{}
+	hdr := "none"
+	if c.Header {
+		f.Header = &pbfw.Header{Required: []string{"OsmSchema-V0.6", "DenseNodes"}}
+		hdr = "ok"
+	}
+	blocks := []M{}
+	for b := 1; b <= c.NB; b++ {
+		typ := (b + c.Variant) % 3
+		blk, n := typedBlock(b, typ)
+		if c.Skip[typ] {
+			n = 0
+		}
+		blocks = append(blocks, M{"k": "data", "n": n})
+		f.Blocks = append(f.Blocks, blk)
+	}
+	data, spans := f.Encode()
+	blkAt := func(off int64) int {
+		for _, sp := range spans {
+			if !sp.IsHeader && int64(sp.Offset) == off {
+				return sp.DataIndex + 1
+			}
+		}
+		return 0
+	}
+	absOff := func(off int64) int {
+		if off == 0 {
+			return 0
+		}
+		k := blkAt(off)
+		if k == 0 {
+			return -1
+		}
+		if c.Header {
+			return k
+		}
+		return k - 1
+	}
+	newScanner := func(d []byte) *osmpbf.Scanner {
+		s := osmpbf.New(context.Background(), bytes.NewReader(d), c.N)
+		s.SkipNodes, s.SkipWays, s.SkipRelations = c.Skip[0], c.Skip[1], c.Skip[2]
+		return s
+	}
+	cfg := M{"n": c.N, "blocks": blocks, "endkind": "eof", "hdr": hdr}
+	s := newScanner(data)
+	H := []M{}
+	seen := map[int64]bool{}
+	var offs []int64
+	for {
+		H = append(H, M{"op": "call"})
+		ok := s.Scan()
+		cur, prev := s.FullyScannedBytes(), s.PreviousFullyScannedBytes()
+		if !ok {
+			H = append(H, M{"op": "ret", "ok": false, "blk": 0, "idx": 0, "cur": absOff(cur), "prev": absOff(prev)})
+			break
+		}
+		id := int64(s.Object().ObjectID().Ref())
+		H = append(H, M{"op": "ret", "ok": true, "blk": int(id / 100), "idx": int(id % 100), "cur": absOff(cur), "prev": absOff(prev)})
+		if !seen[cur] {
+			seen[cur] = true
+			offs = append(offs, cur)
+		}
+	}
+	H = append(H, M{"op": "err", "class": errClass(s.Err())})
+	s.Close()
+	resume := []M{}
+	for _, off := range offs {
+		s2 := newScanner(data[off:])
+		objs := [][]int{}
+		for s2.Scan() {
+			id := int64(s2.Object().ObjectID().Ref())
+			objs = append(objs, []int{int(id / 100), int(id % 100)})
+		}
+		resume = append(resume, M{"from": blkAt(off), "objs": objs, "err": errClass(s2.Err())})
+		s2.Close()
+	}
+	return M{"case": raw, "run": M{"cfg": cfg, "H": H, "reads": 0, "rem": 0, "outcome": "ok", "resume": resume}}
+}
+
 func main() {
 	in := bufio.NewScanner(os.Stdin)
 	in.Buffer(make([]byte, 1<<20), 1<<26)
@@ -273,6 +382,10 @@ func main() {
 		var rec M
 		if c.Kind == "classes" {
 			rec = M{"classes": Classes, "header": HeaderClasses}
+		} else if c.Kind == "skipresume" {
+			var sc SkipCase
+			vio.Must(json.Unmarshal(line, &sc), "case")
+			rec = runSkipResume(sc, line)
 		} else {
 			rec = runCase(c, line)
 		}
